@@ -165,6 +165,13 @@ class DiagLinearOperator(TriangularLinearOperator):
         if inv_quad_rhs is None:
             rhs_batch_shape = torch.Size()
         else:
+            # The elementwise division below would silently broadcast a right-hand side with a single row
+            if inv_quad_rhs.dim() <= self.batch_dim or inv_quad_rhs.size(self.batch_dim) != self.size(-1):
+                raise RuntimeError(
+                    "LinearOperator (size={}) cannot be multiplied with right-hand-side Tensor (size={}).".format(
+                        self.shape, inv_quad_rhs.shape
+                    )
+                )
             rhs_batch_shape = inv_quad_rhs.shape[1 + self.batch_dim :]
 
         if inv_quad_rhs is None:
